@@ -700,6 +700,8 @@ class Run:
                 n_inst = len(inst(snode["id"]))
                 if c is match:
                     used.add("steps:" + snode["id"])
+                    if not final and sidx > 0 and n_inst == 0:
+                        continue  # a later error may have ended the catch's own steps early
                     if n_inst != 1:
                         self.viol("catch-steps-ran=%d" % n_inst, "matching catch step %s ran %d times" % (snode["id"], n_inst))
                     elif final and inst(snode["id"])[0]["state"] != "Completed":
